@@ -863,6 +863,13 @@ func ctxChain(v ssa.Value) ([]string, ssa.Value) {
 			}
 			v = r
 			continue
+		case *ssa.Parameter:
+			r := core.ResolveFree(x)
+			if r == v {
+				return chain, v
+			}
+			v = r
+			continue
 		case *ssa.Extract:
 			if call, ok := x.Tuple.(*ssa.Call); ok && x.Index == 0 {
 				if nxt, name, ok := ctxDeriving(call); ok {
